@@ -9,6 +9,9 @@ def validate(v, module, cfg, trace_file, label):
     events = vlib.read_ndjson(trace_file)
     traces = vlib.split_traces(events)
     v.add_cov(events_validated=len(events))
+    if not v.samples and events:
+        # always show what the recorded executions look like, whatever the verdict
+        v.sample({"trace_head": [{k: e[k] for k in list(e)[:10] if k not in ("t_us", "src", "seq", "g")} for e in events[1:9]]})
     if r["ok"]:
         v.add_cov(traces_validated_against_impl=len(traces))
         return True
